@@ -79,6 +79,16 @@ def ref_graph(tasks):
     return nodes, edges, barriers, retries, roots
 
 
+def _typed_eq(a, b):
+    if type(a) is not type(b):
+        return False
+    if isinstance(a, dict):
+        return [(type(k), k) for k in a] == [(type(k), k) for k in b] and all(_typed_eq(a[k], b[k]) for k in a)
+    if isinstance(a, (list, tuple)):
+        return len(a) == len(b) and all(_typed_eq(x, y) for x, y in zip(a, b))
+    return a == b
+
+
 def graph_view(g):
     G = g._graph
     nodes = set(G.nodes())
@@ -106,7 +116,7 @@ def gen_tasks(rng, n_tasks=3, allow_undefined=False, allow_reserved=False, allow
     names = ["t%d" % i for i in range(1, n_tasks + 1)]
     if allow_reserved and rng.random() < 0.3:
         names[-1] = rng.choice(["noop", "fail", "retry", "continue"])
-    pool = names + ["noop", "fail"] + (["tx", "ty"] if allow_undefined else [])
+    pool = names + ["noop", "fail", "retry"] + (["tx", "ty"] if allow_undefined else [])
     tasks = {}
     for t in names:
         td = {"action": "core.noop"}
@@ -185,6 +195,8 @@ class DefinitionReaders(Unit):
             "the composed graph has exactly the tasks reachable from the start tasks, exactly one edge per (task, transition position, target) with that transition's condition and position, barrier and retry attributes exactly where join / retry (spec or command) are declared, and its roots are the start tasks"},
         "C14.compose.order_independent": {"props": ["C14", "C19"], "text":
             "composing the same tasks declared in another order gives the same graph (serialised form identical)"},
+        "C05.spec.roundtrip": {"props": ["C05", "C16"], "text":
+            "WorkflowSpec.deserialize(spec.serialize()) carries exactly the same definition (type-exact, including mapping keys that are not strings) and serialises identically"},
         "C14.graph.roundtrip": {"props": ["C14", "C05"], "text":
             "WorkflowGraph.deserialize(serialize(g)) serialises identically, including the keys of parallel edges"},
         "C20.shorthand.same_graph": {"props": ["C20"], "text":
@@ -226,6 +238,19 @@ class DefinitionReaders(Unit):
                         tasks = dict(tasks, __error=repr(ex))
                     ctx.oblige("C14.spec.next_prev_start", ok, None, {"definition": tasks})
             elif split == "compose":
+                for extra in ({"labels": {200: "ok", 404: "missing", True: "yes"}}, {"n": [1, 1.5, None, {"k": False}]}, {}):
+                    d0 = {"version": 1.0, "vars": [{"table": extra}] if extra else [],
+                          "tasks": {"t1": {"action": "core.noop", "next": [{"publish": [{"t": extra}], "do": "t2"}]}, "t2": {"action": "core.noop"}}}
+                    if not extra:
+                        del d0["vars"]
+                    try:
+                        sp = native_specs.WorkflowSpec(d0)
+                        ser = sp.serialize()
+                        back = native_specs.WorkflowSpec.deserialize(ser)
+                        ok = _typed_eq(back.spec, sp.spec) and _typed_eq(back.serialize(), ser)
+                    except Exception as ex:
+                        ok = False
+                    ctx.oblige("C05.spec.roundtrip", ok, None, {"definition": repr(d0)[:300]})
                 fam = family(seed * 7 + 2, n) + family(seed * 7 + 5, n // 3, allow_dup=True)
                 for tasks in fam:
                     info = {"definition": tasks}
@@ -355,11 +380,16 @@ class InspectSeedIndependence(Unit):
                 "d": {"join": "all", "action": "core.echo message=<% ctx().u1 %> <% ctx().u2 %>"}}},
             {"version": 1.0, "vars": [{"v": "<% ctx().w1 %> {{ ctx().w1 }} <% ctx().w2 %>"}],
              "tasks": {"t1": {"action": "core.noop"}}},
+            {"version": 1.0, "tasks": {"t1": {"with": {"items": "x y z <% ctx(xs) %> oops"}, "action": "core.noop"}}},
         ]
         prog = ("import sys, json\nsys.path.insert(0, %r)\nfrom orquesta.specs import native as specs\n"
                 "from orquesta.composers import native as comp\nd = json.loads(sys.stdin.read())\ns = specs.WorkflowSpec(d)\n"
                 "rep = s.inspect()\ntry:\n    g = json.dumps(comp.WorkflowComposer.compose(s).serialize(), sort_keys=True)\n"
-                "except Exception as e:\n    g = repr(e)\nprint(json.dumps([rep, g], sort_keys=True))\n" % root)
+                "except Exception as e:\n    g = repr(e)\n"
+                "from orquesta.expressions import base as eb\n"
+                "try:\n    ev = eb.evaluate('{{ ctx().a }} and <%% ctx().b %%>', {'a': 1, 'b': 2})\nexcept Exception as e:\n    ev = repr(e)\n"
+                "try:\n    ev2 = eb.evaluate('<%% ctx().m1 %%> <%% ctx().m2 %%>', {'a': 1})\nexcept Exception as e:\n    ev2 = str(e)\n"
+                "print(json.dumps([rep, g, ev, ev2], sort_keys=True))\n" % root)
 
         def thunk(e):
             for k, d in enumerate(defs):
